@@ -1008,7 +1008,16 @@ func runC02(c *core.Ctx) {
 					if val.Bool && val.Src {
 						break
 					}
-					k, isK := rv[0].(*ssa.Const)
+					// (a numeric conversion of the selected constant - float32(boolToFloat64(v)) - keeps 0 and 1)
+					sel := rv[0]
+					for depth := 0; depth < 3; depth++ {
+						cv, isCv := sel.(*ssa.Convert)
+						if !isCv {
+							break
+						}
+						sel = e.deref(cv.X)
+					}
+					k, isK := sel.(*ssa.Const)
 					if !isK || len(e.boolTaken) != 1 {
 						g.problems = append(g.problems, "bool source: returned value is neither the source nor a constant selected by it at "+where)
 						break
